@@ -188,6 +188,18 @@ def step (s : DState) (toks : List String) : DState × List String :=
         let obj := o.map (fun (f, b) => FsmObj.enm f b)
         ({ s with w := w, fsm := s.fsm.set! A obj }, [showFsm A obj, showBand A obj])
       | _ => (s, bad)
+  | ["fsm", "free", a] =>
+    match parseIdx a 16 with
+    | none => (s, bad)
+    | some A =>
+      match s.fsm[A]?.getD none with
+      | none => (s, bad)
+      | some o =>
+        let w := match o with
+          | .map _ m => (if m.isSome then s.w.free X.sizeofMappingState else s.w).free X.sizeofAutomata
+          | .sess _ => s.w.free X.sizeofAutomata
+          | .enm _ b => (if b.isSome then s.w.free X.sizeofBandState else s.w).free X.sizeofAutomata
+        ({ s with w := w, fsm := s.fsm.set! A none }, ["ok"])
   | ["fsm", "set", a, st, l] =>
     match parseIdx a 16, parseDec st, parseDec l with
     | some A, some st, some l =>
@@ -498,7 +510,7 @@ def main (args : List String) : IO Unit := do
     let txt ← IO.FS.readFile path
     for line in txt.splitOn "\n" do
       match Driver.tokens line with
-      | [m, a, b, c, d, e] =>
+      | m :: a :: b :: c :: d :: e :: _rest =>      -- a 7th field (content of the rest of the record: class, indices, session fields) is none of the property's business
         match Driver.parseFixed m 6, a.toNat?, b.toNat?, c.toNat?, d.toNat?, e.toNat? with
         | some mac, some mtu, some ift, some spd, some med, some fl =>
           let s := LLTD.LinuxPort.supplied { mac := mac, mtu := mtu, ifType := ift, linkSpeed := spd, mediumType := med, flags := fl }
